@@ -81,6 +81,15 @@ PLAN = {
         note="the proc-macro program itself is not verified (its output is, per instance); generic types and write-only derives are skipped and listed; "
              "the 'programs' quantifier is sampled by the in-repo types only (generated-layout corpus not built yet); ethercrab-wire/src/impls.rs not yet under contract",
     ),
+    "C14": dict(
+        verus=["eeprom_range", "subdevice_eeprom"], kani=["eeprom_alias"], level="proof",
+        claim="generic EEPROM write (EepromRange::write, verbatim, Verus, unbounded): words (b[2i], b[2i+1] or 0) are written at consecutive word addresses "
+              "from the current position, never starting at or past the window end, stopping only when data or window is exhausted, returning the bytes consumed, "
+              "no overflow; start_at's window = requested length rounded up to a word; the crc crate's table for ECAT_CRC_ALGORITHM equals a bit-by-bit "
+              "CRC-8 (0x07, init 0xff) on all 14-byte inputs (Kani, complete); bounded Kani cross-check of write on a shared-memory mock provider",
+        note="NOT decided: set_station_alias as a whole (exactly two words, checksum over the changed header) - its future is intractable for CBMC and its "
+             "temporaries hide the provider state from a Verus postcondition; DeviceEeprom::write_word's retry bound (<= 21 attempts) not yet under contract",
+    ),
     "C17": dict(
         verus=[], kani=["ports", "dc"], level="proof",
         claim="4-port functions of Ports proved against closed-form specs for all 16 activity patterns x all u32 times x all downstream assignments "
